@@ -142,7 +142,7 @@ def run(R):
                         return True
                     if e.get("k") == "call" and (e.get("callee") or "").endswith("ConcurrentTaskSet::schedule"):
                         return True
-                    if e.get("k") == "call" and e.get("opcall") == "()" and isinstance(strip_move(e.get("obj")), dict) and strip_move(e.get("obj")).get("type") == "dispenso::OnceFunction":
+                    if e.get("k") == "call" and e.get("opcall") == "()" and isinstance(strip_move(e.get("obj")), dict) and strip_move(e.get("obj")).get("ctype") == "dispenso::OnceFunction":
                         return True
                     return False
                 path = cb.path_to_exit_avoiding(dis[0][0], hands_on)
